@@ -714,6 +714,32 @@ def js_raisable(prog: Program) -> RuleResult:
                 f"or any @contextmanager block) raises FrozenInstanceError / AttributeError in place of the documented error")
     if n < 3:
         raise AnalysisError("JS-RAISABLE: fewer than three error classes below JSONSerializationError")
+    # ... and constructing the error cannot fail either: the payload is whatever the tag resolved to (any object, a class whose __module__ is
+    # None or a descriptor).  Formatting it into an f-string is total; concatenating, %-formatting or joining its attributes is not, and a
+    # helper of the repository applied to it is only as total as its body.
+    def partial_ops(fn, depth=0):
+        out = []
+        for x in walk_local(fn.node):
+            if isinstance(x, ast.BinOp) and isinstance(x.op, (ast.Add, ast.Mod)) and any(isinstance(y, ast.Attribute) for side in (x.left, x.right) for y in ast.walk(side)):
+                out.append((fn, x))
+            if isinstance(x, ast.Call) and isinstance(x.func, ast.Attribute) and x.func.attr == "join":
+                out.append((fn, x))
+            if isinstance(x, ast.Call) and isinstance(x.func, ast.Name) and depth < 2:
+                q = fn.module.resolve(x.func)
+                g = prog.functions.get(q) if q else None
+                if g is not None:
+                    out += partial_ops(g, depth + 1)
+        return out
+
+    for c in sorted(prog.subclasses(base.qual, strict=False), key=lambda x: x.qual):
+        for nm in ("__post_init__", "__init__", "__str__", "__repr__"):
+            m = c.methods.get(nm)
+            if m is None:
+                continue
+            ops = partial_ops(m)
+            r.check(not ops, f"{c.name}.{nm}#message-is-total", site(ops[0][0], ops[0][1]) if ops else site(m), src(ops[0][1])[:80] if ops else "", "the message is built by formatting only",
+                    f"building the message runs `{src(ops[0][1])[:70] if ops else ''}` (in {ops[0][0].short if ops else ''}) on attributes of the payload: for a class whose __module__ is not a string "
+                    f"(type(name, bases, {{'__module__': None}}), extension types) it raises TypeError while the documented error is being constructed")
     return r
 
 
